@@ -58,6 +58,7 @@ type DynOp struct {
 }
 
 func (o DynOp) obj() Obj { return Obj{o.Ns, o.Name, o.Proj} }
+
 type DynIn struct {
 	Names   []int     `json:"names"`   // nameSelector.matchNames (empty: any name)
 	Initial []Obj     `json:"initial"` // objects before the monitor is created
@@ -68,6 +69,19 @@ type DynIn struct {
 	Filter   bool `json:"filter"`
 	DropFull bool `json:"drop_full"`
 	SelExpr  bool `json:"sel_expr"` // the selector is written with matchExpressions instead of matchLabels
+	// Comp: a second binding of the same kind and names with STATIC namespaces, in the same process
+	// (model coq/theories/C02_Comp.v): its informers share the first binding's shared informers
+	Comp *DynComp `json:"comp,omitempty"`
+}
+
+// DynComp: the companion binding.  First: its monitor is created and started before the first
+// binding's (else after), also at every restart; SameDebug: both carry the same debug name.
+type DynComp struct {
+	Nss       []int `json:"nss"`
+	Filter    bool  `json:"filter"`
+	DropFull  bool  `json:"drop_full"`
+	First     bool  `json:"first,omitempty"`
+	SameDebug bool  `json:"same_debug,omitempty"`
 }
 
 const dynLabel = "c02-dyn"
@@ -79,6 +93,7 @@ type dynRun struct {
 	ctx    context.Context
 	cancel context.CancelFunc
 	vm     *kubeeventsmanager.VerifC01Monitor
+	vmc    *kubeeventsmanager.VerifC01Monitor // the companion's monitor
 
 	objs      map[[2]int]int // the cluster's objects
 	nsLab     map[int]bool   // existing namespaces -> carries the label
@@ -117,11 +132,73 @@ func (d *dynRun) config() *kubeeventsmanager.MonitorConfig {
 	return mc
 }
 
-func (d *dynRun) views() []View {
+func (d *dynRun) views() []View { return viewsOf(d.vm) }
+
+func viewsOf(vm *kubeeventsmanager.VerifC01Monitor) []View {
 	var r []View
-	for _, o := range d.vm.M.Snapshot() {
+	for _, o := range vm.M.Snapshot() {
 		r = append(r, toView(o))
 	}
+	return r
+}
+
+func (d *dynRun) compConfig() *kubeeventsmanager.MonitorConfig {
+	c := d.in.Comp
+	mc := monitorConfig(SnapIn{Names: d.in.Names, Namespaces: c.Nss, Filter: c.Filter, DropFull: c.DropFull})
+	mc.Metadata.MonitorId = "mc"
+	if !c.SameDebug {
+		mc.Metadata.DebugName = "c02-comp"
+	}
+	return mc
+}
+
+func (d *dynRun) compCovers(n int) bool {
+	if d.in.Comp == nil || d.vmc == nil {
+		return false
+	}
+	for _, x := range d.in.Comp.Nss {
+		if x == n {
+			return true
+		}
+	}
+	return false
+}
+
+// compExpected: the harness's own bookkeeping of what the companion shows (a waiting criterion only)
+func (d *dynRun) compExpected() []View {
+	var r []View
+	for k, p := range d.objs {
+		in := false
+		for _, n := range d.in.Comp.Nss {
+			in = in || n == k[0]
+		}
+		if !in {
+			continue
+		}
+		if len(d.in.Names) > 0 {
+			ok := false
+			for _, n := range d.in.Names {
+				ok = ok || n == k[1]
+			}
+			if !ok {
+				continue
+			}
+		}
+		v := View{k[0], k[1], -1, -1}
+		if d.in.Comp.Filter {
+			v.Fr = p % 10
+		}
+		if !d.in.Comp.DropFull {
+			v.Full = p
+		}
+		r = append(r, v)
+	}
+	sort.Slice(r, func(i, j int) bool {
+		if r[i].Ns != r[j].Ns {
+			return r[i].Ns < r[j].Ns
+		}
+		return r[i].Name < r[j].Name
+	})
 	return r
 }
 
@@ -162,11 +239,13 @@ func (d *dynRun) expected() []View {
 
 // settle waits until the snapshot has reached the expected quiet state and stays there for
 // two more reads, or for the deadline, and returns the last snapshot read.
-func (d *dynRun) settle() []View {
-	want := fmt.Sprint(d.expected())
+func (d *dynRun) settle() []View { return settleOf(d.vm, d.expected()) }
+
+func settleOf(vm *kubeeventsmanager.VerifC01Monitor, expected []View) []View {
+	want := fmt.Sprint(expected)
 	deadline := time.Now().Add(2 * time.Second)
 	same := 0
-	cur := d.views()
+	cur := viewsOf(vm)
 	for {
 		if fmt.Sprint(cur) == want {
 			same++
@@ -180,7 +259,7 @@ func (d *dynRun) settle() []View {
 			return cur
 		}
 		time.Sleep(2 * time.Millisecond)
-		cur = d.views()
+		cur = viewsOf(vm)
 	}
 }
 
@@ -320,6 +399,27 @@ func (d *dynRun) matchingNss() []int {
 func (d *dynRun) startMonitor(ghost *int) bool {
 	kubeeventsmanager.DefaultFactoryStore.Reset()
 	d.ctx, d.cancel = context.WithCancel(context.Background())
+	d.vmc = nil
+	startComp := func() bool {
+		if d.in.Comp == nil {
+			return true
+		}
+		vmc, err := kubeeventsmanager.NewVerifC01Monitor(d.ctx, d.fc.Client, d.mstor, d.compConfig())
+		if err != nil {
+			d.setNote("create companion: " + err.Error())
+			return false
+		}
+		vmc.M.Start(d.ctx)
+		vmc.M.EnableKubeEventCb()
+		d.vmc = vmc
+		for _, n := range d.in.Comp.Nss {
+			syncObjWatch(d.ctx, d.fc, vmc, n)
+		}
+		return true
+	}
+	if d.in.Comp != nil && d.in.Comp.First && !startComp() {
+		return false
+	}
 	vm, err := kubeeventsmanager.NewVerifC01Monitor(d.ctx, d.fc.Client, d.mstor, d.config())
 	if err != nil {
 		d.setNote("create: " + err.Error())
@@ -341,6 +441,9 @@ func (d *dynRun) startMonitor(ghost *int) bool {
 	for _, n := range sync {
 		d.waitVary(n, true)
 		d.syncWatch(n)
+	}
+	if d.in.Comp != nil && !d.in.Comp.First && !startComp() {
+		return false
 	}
 	return true
 }
@@ -421,6 +524,11 @@ func runDyn(in DynIn, ops []DynOp) Obs {
 			case op.Label:
 				// create it labelled / give it the label (the filtered watch: ADDED) / a
 				// change that keeps it matching (MODIFIED)
+				if !was && d.compCovers(op.Ns) {
+					// the namespace's shared informer already runs (for the companion) and the first
+					// binding's new informers attach to it: it is brought up to date first
+					syncObjWatch(d.ctx, d.fc, d.vmc, op.Ns)
+				}
 				putNs(op.Ns, true)
 				if !was {
 					d.waitVary(op.Ns, true)
@@ -450,6 +558,13 @@ func runDyn(in DynIn, ops []DynOp) Obs {
 				v = []View{}
 			}
 			o.Dyn = append(o.Dyn, v)
+			if d.vmc != nil {
+				cv := settleOf(d.vmc, d.compExpected())
+				if cv == nil {
+					cv = []View{}
+				}
+				o.DynC = append(o.DynC, cv)
+			}
 		default:
 			d.setNote("unknown op " + op.Kind)
 		}
@@ -482,12 +597,24 @@ func renderDyn(in DynIn, ops []DynOp, o Obs, bad string, c *core.Case) {
 	if in.GhostNs != nil {
 		ghost = fmt.Sprintf("(Some %d)", *in.GhostNs)
 	}
-	c.Coq = fmt.Sprintf("CDyn (mkDynIn %s %s %s %s %s %s %s) %s %s",
+	dynIn := fmt.Sprintf("(mkDynIn %s %s %s %s %s %s %s)",
 		core.CoqList(in.Names, core.CoqN), core.CoqList(in.Initial, coqObj),
 		core.CoqList(in.Nss, func(s NsState) string { return fmt.Sprintf("(%d,%s)", s.Ns, core.CoqBool(s.Label)) }),
-		ghost, core.CoqList(ops, coqDynOp), core.CoqBool(in.Filter), core.CoqBool(!in.DropFull),
-		core.CoqList(o.Dyn, func(vs []View) string { return core.CoqList(vs, coqView) }), bad)
+		ghost, core.CoqList(ops, coqDynOp), core.CoqBool(in.Filter), core.CoqBool(!in.DropFull))
+	coqReads := func(rs [][]View) string {
+		return core.CoqList(rs, func(vs []View) string { return core.CoqList(vs, coqView) })
+	}
+	if in.Comp == nil {
+		c.Coq = fmt.Sprintf("CDyn %s %s %s", dynIn, coqReads(o.Dyn), bad)
+	} else {
+		c.Coq = fmt.Sprintf("CDyn2 %s (mkDComp %s %s %s %s) %s %s %s", dynIn,
+			core.CoqList(in.Comp.Nss, core.CoqN), core.CoqList(in.Names, core.CoqN), core.CoqBool(in.Comp.Filter), core.CoqBool(!in.Comp.DropFull),
+			coqReads(o.Dyn), coqReads(o.DynC), bad)
+	}
 	c.Key = "dyn" + fmt.Sprint(in.Names, in.Initial, in.Nss, in.GhostNs != nil, ops, in.Filter, in.DropFull, in.SelExpr)
+	if in.Comp != nil {
+		c.Key += fmt.Sprint(*in.Comp)
+	}
 
 	// what the history contains (tags): a namespace found by the initial list / by a restart's
 	// initial list / at run time that stops matching while it holds objects, etc.
@@ -572,6 +699,9 @@ func renderDyn(in DynIn, ops []DynOp, o Obs, bad string, c *core.Case) {
 				c.Tags = append(c.Tags, "dyn-"+k+"-ns-stops-"+w)
 			}
 		}
+	}
+	if in.Comp != nil {
+		c.Tags = append(c.Tags, "dyn-companion", fmt.Sprintf("dyn-companion-first:%v", in.Comp.First), fmt.Sprintf("dyn-companion-same-debug-name:%v", in.Comp.SameDebug))
 	}
 	c.Nontrivial = reads >= 1 && nsOps+objOps >= 3
 }
@@ -713,6 +843,14 @@ func dynCorpus(add func(Input, string)) {
 	c(DynIn{Nss: []NsState{{1, true}, {2, false}}, Initial: []Obj{{1, 1, 9}}}, ob("delete", 1, 1, 9), ob("create", 2, 1, 9), rd, ob("delete", 2, 1, 9), ob("create", 1, 1, 9), rd)
 	// nameSelector and namespace.labelSelector together; selector written with matchExpressions
 	c(DynIn{Names: []int{2, 2}, Nss: []NsState{{1, true}, {3, true}}, Initial: []Obj{{1, 2, 1}, {3, 2, 2}}, SelExpr: true, DropFull: true}, nsSet(1, false), nsSet(2, true), ob("create", 2, 2, 3), rd, nsSet(1, true), nsSet(1, true), rd)
+	// beside a companion binding with static namespaces: the namespace is emptied, deleted and re-created without the
+	// label (the first binding's informers are cancelled), then changes: the companion goes on showing it
+	c(DynIn{Nss: []NsState{{1, true}}, Initial: []Obj{{1, 1, 1}}, Comp: &DynComp{Nss: []int{1}}},
+		rd, ob("delete", 1, 1, 1), nsDel(1), nsSet(1, false), ob("create", 1, 2, 2), rd, ob("modify", 1, 2, 3), rd)
+	c(DynIn{Nss: []NsState{{1, true}, {2, true}}, Comp: &DynComp{Nss: []int{1, 2}, SameDebug: true, First: true, Filter: true}},
+		ob("create", 1, 1, 11), nsSet(1, false), ob("modify", 1, 1, 22), ob("create", 2, 1, 3), rd, nsSet(2, false), ob("delete", 2, 1, 3), rd, nsSet(1, true), rd)
+	c(DynIn{Nss: []NsState{{1, true}}, Comp: &DynComp{Nss: []int{1}, SameDebug: true}},
+		ob("create", 1, 1, 1), DynOp{Kind: "restart"}, nsSet(1, false), ob("create", 1, 2, 2), rd)
 	// no namespace matches at all
 	c(DynIn{Nss: []NsState{{1, false}}, Initial: []Obj{{1, 1, 1}}}, rd, ob("create", 2, 1, 1), rd)
 }
